@@ -55,6 +55,31 @@ def _appends(fn: ast.FunctionDef, listname: str) -> list[ast.Call]:
             and c.func.attr in ("append", "insert", "extend") and norm(c.func.value) == listname]
 
 
+def remover_missing_label_rule(chk: Check, ctx: Any, rule: str) -> None:
+    """A label jump is rejected exactly when its label id is not a key of label_offsets (offset 0 is a valid offset)."""
+    rem = ctx.repo.func(REMOVER)
+    fn = rem.node
+    table = astq.params_of(fn)[1]
+    raises = [n for n in walk_no_nested(fn) if isinstance(n, ast.Raise) and isinstance(n.exc, ast.Call) and dotted(n.exc.func) == "SsbCompilerError"]
+    verdict: bool | None = None
+    why = "a jump whose label id is not in label_offsets is not rejected with SsbCompilerError"
+    for r in raises:
+        for n in walk_no_nested(fn):
+            if isinstance(n, ast.If) and any(x is r for st in n.body for x in ast.walk(st)):
+                t = astq.inline_locals(fn, n.test)
+                if isinstance(t, ast.Compare) and isinstance(t.ops[0], ast.NotIn) and norm(t.comparators[0]) in (table, f"{table}.keys()"):
+                    verdict = True
+                elif isinstance(t, ast.Compare) and isinstance(t.ops[0], ast.Is) and f"{table}.get(" in norm(t.left) \
+                        and isinstance(t.comparators[0], ast.Constant) and t.comparators[0].value is None:
+                    verdict = True
+                elif isinstance(t, ast.UnaryOp) and isinstance(t.op, ast.Not) and f"{table}.get(" in norm(t.operand) or (
+                        isinstance(t, ast.UnaryOp) and isinstance(t.op, ast.Not) and f"{table}[" in norm(t.operand)):
+                    verdict = False
+                    why = (f"`if {norm(n.test)}` tests the truth value of the looked-up offset: offset 0 (the first op of an SsbScript file) counts as "
+                           "missing, so a jump to the very first op is rejected with 'label does not exist'")
+    chk.decide(rule, "remover:missing-label-raises", verdict if raises else False, rem, why, "missing label id (key test) -> SsbCompilerError")
+
+
 def run(chk: Check, ctx: Any) -> None:
     repo = ctx.repo
     fold = ctx.fold
@@ -141,17 +166,7 @@ def run(chk: Check, ctx: Any) -> None:
         recv = astq.inline_locals(fn, m.func.value.value)  # type: ignore[union-attr]
         chk.decide("C03-R2", "remover:target-on-root", norm(recv).endswith(".root"), rem,
                    f"the target is appended to {norm(recv)}, not to the root op that is output", "target stored on the emitted op", node=m)
-    # undefined label -> SsbCompilerError
-    raises = [n for n in walk_no_nested(fn) if isinstance(n, ast.Raise) and isinstance(n.exc, ast.Call) and dotted(n.exc.func) == "SsbCompilerError"]
-    guard_ok = False
-    for r in raises:
-        for n in walk_no_nested(fn):
-            if isinstance(n, ast.If) and any(x is r for x in ast.walk(n)) and isinstance(n.test, ast.Compare) \
-                    and isinstance(n.test.ops[0], ast.NotIn) and norm(n.test.comparators[0]) == astq.params_of(fn)[1]:
-                guard_ok = True
-    chk.decide("C03-R4", "remover:missing-label-raises", guard_ok, rem,
-               "a jump whose label id is not in label_offsets is not rejected with SsbCompilerError under the test `<id> not in label_offsets`",
-               "missing label -> SsbCompilerError")
+    remover_missing_label_rule(chk, ctx, "C03-R4")
 
     # table coverage and index agreement
     table = fold.const(f"{SPECIAL}:OPS_WITH_JUMP_TO_MEM_OFFSET")
